@@ -1,7 +1,13 @@
-(* C20 — property theorems.  Only statements closed by [exact]; proofs live in Pkg/*Proofs.v. *)
+(* C20 — property theorems.  Only statements closed by [exact]; proofs live in Pkg/*Proofs.v.
+   matches_cur = SemVerPrefix::matches of the unchanged tree, matches_fix = the repaired matcher
+   of proposed/C20-matches.diff; statements are given for both so that the claim can be switched
+   once the fix is committed. *)
 From Coq Require Import List NArith Bool String.
 Import ListNotations.
-From NV Require Import Pkg.Version Pkg.VersionProofs.
+From NV Require Import Pkg.Version Pkg.VersionProofs Pkg.Resolve Pkg.ResolveProofs Pkg.Spec
+  Pkg.CheckerProofs Pkg.Lock Pkg.LockProofs Pkg.Scheme Pkg.SchemeProofs.
+
+(* ---------------------------------------------------------------- req_views_agree *)
 
 (* The three views of a requirement.  The solver's bucket + range view is exactly the property's
    words ("the exact version, or one of the same compatibility class that is not lower", never a
@@ -34,3 +40,152 @@ Proof. exact matches_cur_on_satisfies. Qed.
 Theorem C20_bucket_unique : forall b v,
   bucket_wf b = true -> bucket_contains b v = true -> b = bucket_of_ver v.
 Proof. exact bucket_contains_unique. Qed.
+
+(* ---------------------------------------------------------------- checker_complete *)
+
+(* The executable checker is the declarative spec (every edge from the root and from every
+   selected version is bound to a selected version of the required package that satisfies the
+   requirement; every selected version exists and sits in its own compatibility class; the
+   assignment is a map, i.e. one version per package and class). *)
+Theorem C20_checker_correct : forall idx man a,
+  valid_solution idx man a = true
+  <-> keys_nodup a = true /\ Valid idx man (fun k => alookup k a).
+Proof. exact checker_correct. Qed.
+
+(* The brute-force solver is sound and complete: it fails iff no assignment at all is valid. *)
+Theorem C20_exists_solution_sound : forall idx man a,
+  exists_solution idx man = Some a -> valid_solution idx man a = true.
+Proof. exact exists_solution_sound. Qed.
+
+Theorem C20_exists_solution_complete : forall idx man,
+  exists_solution idx man = None <-> forall a, valid_solution idx man a = false.
+Proof. exact exists_solution_iff. Qed.
+
+(* ---------------------------------------------------------------- lookup_total_and_right *)
+
+(* On every valid assignment (every answer accepted by the checker): each dependency edge's
+   post-resolution lookup returns a version, it is the one assigned to the edge's bucket, and it
+   satisfies the requirement.  Repaired matcher: unconditionally. *)
+Theorem C20_lookup_right_of_valid : forall idx man a d,
+  valid_solution idx man a = true -> edge idx man a d ->
+  exists w, index_dep_version matches_fix (index_packages a) d = Some w
+         /\ alookup (dep_key d) a = Some w
+         /\ satisfies (dreq d) w = true.
+Proof. exact lookup_fix_right. Qed.
+
+(* Unchanged matcher: the lookup returns the assigned version exactly outside the known class
+   (minor gap, or an earlier prerelease of the same package passing the matcher). *)
+Theorem C20_lookup_cur_iff_not_known : forall idx man a d w,
+  valid_solution idx man a = true -> edge idx man a d -> alookup (dep_key d) a = Some w ->
+  (index_dep_version matches_cur (index_packages a) d = Some w
+   <-> known_class (index_packages a) d w = false).
+Proof. exact lookup_cur_iff. Qed.
+
+(* ... and inside the known class it panics or returns a version that violates the requirement. *)
+Theorem C20_lookup_cur_wrong_is_unsatisfied : forall idx man a d w x,
+  valid_solution idx man a = true -> edge idx man a d -> alookup (dep_key d) a = Some w ->
+  index_dep_version matches_cur (index_packages a) d = Some x -> x <> w ->
+  satisfies (dreq d) x = false.
+Proof. exact lookup_cur_wrong_is_unsatisfied. Qed.
+
+Theorem C20_one_version_per_class : forall idx man a id x y,
+  valid_solution idx man a = true ->
+  In x (vers_of a id) -> In y (vers_of a id) -> bucket_of_ver x = bucket_of_ver y -> x = y.
+Proof. exact one_version_per_class. Qed.
+
+(* The same for every answer of a solver that meets the stated pubgrub contract (a hypothesis,
+   not an axiom), for every lock file handed to resolve_with_lock. *)
+Theorem C20_lookup_total_and_right : forall solve, pubgrub_sound solve ->
+  forall idx entries man sol d,
+  solve idx (locked_of entries) man = Solved sol -> edge idx man sol d ->
+  exists w, index_dep_version matches_fix (index_packages sol) d = Some w
+         /\ alookup (dep_key d) sol = Some w
+         /\ satisfies (dreq d) w = true.
+Proof. exact oracle_lookup_fix. Qed.
+
+Theorem C20_lookup_total_and_right_except_known : forall solve, pubgrub_sound solve ->
+  forall idx entries man sol d,
+  solve idx (locked_of entries) man = Solved sol -> edge idx man sol d ->
+  exists w, alookup (dep_key d) sol = Some w
+         /\ satisfies (dreq d) w = true
+         /\ (index_dep_version matches_cur (index_packages sol) d = Some w
+             <-> known_class (index_packages sol) d w = false).
+Proof. exact oracle_lookup_cur. Qed.
+
+Theorem C20_oracle_answer_valid : forall solve, pubgrub_sound solve ->
+  forall idx entries man sol,
+  solve idx (locked_of entries) man = Solved sol -> valid_solution idx man sol = true.
+Proof. exact oracle_answer_valid. Qed.
+
+(* the contract is satisfiable: the brute-force solver meets it (soundness and completeness) *)
+Theorem C20_pubgrub_contract_satisfiable :
+  pubgrub_sound brute_solver /\ pubgrub_complete brute_solver.
+Proof. exact brute_solver_meets_contract. Qed.
+
+(* ---------------------------------------------------------------- lock_no_crash, namer_injective *)
+
+Theorem C20_lock_no_crash : forall idx man a fuel,
+  valid_solution idx man a = true ->
+  ~ crashes (lock_new fuel matches_fix (Res idx (index_packages a)) man).
+Proof. exact lock_no_crash_fix. Qed.
+
+Theorem C20_lock_no_crash_except_known : forall idx man a fuel,
+  valid_solution idx man a = true ->
+  (forall d w, edge idx man a d -> alookup (dep_key d) a = Some w ->
+               known_class (index_packages a) d w = false) ->
+  ~ crashes (lock_new fuel matches_cur (Res idx (index_packages a)) man).
+Proof. exact lock_no_crash_cur. Qed.
+
+Theorem C20_package_map_no_crash : forall idx man a,
+  valid_solution idx man a = true ->
+  exists m, package_map matches_fix (Res idx (index_packages a)) man = Ok m.
+Proof. exact package_map_no_crash_fix. Qed.
+
+(* In every state reachable by LockFileNamer::name calls a name belongs to one precise package;
+   two calls, any distance apart, return the same entry name only for the same package. *)
+Theorem C20_namer_injective : forall calls p q e,
+  let nm := namer_run calls namer_empty in
+  lookup_ppkg p (assigned nm) = Some e -> lookup_ppkg q (assigned nm) = Some e -> p = q.
+Proof. exact namer_injective. Qed.
+
+Theorem C20_namer_names_distinct : forall calls0 calls n1 p1 n2 p2,
+  let nm := namer_run calls0 namer_empty in
+  let r1 := namer_name nm n1 p1 in
+  let r2 := namer_name (namer_run calls (snd r1)) n2 p2 in
+  fst r1 = fst r2 -> p1 = p2.
+Proof. exact namer_names_distinct. Qed.
+
+(* ---------------------------------------------------------------- relock_stable *)
+
+(* With a lock file that is a complete valid solution, every run of a decide/propagate solver
+   (any decision order, any subset of the known constraints handed to choose_version) decides only
+   locked versions, never meets a conflict and is never stuck. *)
+Theorem C20_relock_stable : forall idx man locked,
+  valid_solution idx man locked = true ->
+  forall P, run idx locked man P ->
+    (forall k v, In (k, v) P -> alookup k locked = Some v)
+    /\ ~ conflict idx man P
+    /\ (forall k rgs, needed idx man P k -> (forall rg, In rg rgs -> imposes idx man P k rg) ->
+          exists w, alookup k locked = Some w /\ choose_version idx locked k rgs = Some w).
+Proof. exact relock_stable. Qed.
+
+(* ---------------------------------------------------------------- witnesses of the known findings *)
+
+Theorem C20_lock_crash_cur_refuted :
+  valid_solution w_idx w_man w_sol = true
+  /\ exists_solution w_idx w_man = Some w_sol
+  /\ lock_new 10 matches_cur (Res w_idx (index_packages w_sol)) w_man = Panic
+  /\ package_map matches_cur (Res w_idx (index_packages w_sol)) w_man = Panic
+  /\ (exists l, lock_new 10 matches_fix (Res w_idx (index_packages w_sol)) w_man = Ok l).
+Proof. exact lock_crash_cur_witness. Qed.
+
+Theorem C20_lookup_wrong_cur_refuted :
+  valid_solution w2_idx w2_man w2_sol = true
+  /\ index_dep_version matches_cur (index_packages w2_sol) (Dep "a" 0 (RCompat 1 None None)) = Some (V 1 0 0 "alpha")
+  /\ satisfies (RCompat 1 None None) (V 1 0 0 "alpha") = false
+  /\ index_dep_version matches_fix (index_packages w2_sol) (Dep "a" 0 (RCompat 1 None None)) = Some (V 1 2 0 EmptyString).
+Proof. exact lookup_wrong_cur_witness. Qed.
+
+Theorem C20_self_dependency_no_solution :
+  exists_solution w3_idx w3_man = None /\ valid_solution w3_idx w3_man [] = false.
+Proof. exact self_dependency_witness. Qed.
